@@ -493,6 +493,12 @@ def check_config_reaches_request(P, R, rid):
                 if isinstance(arg, ast.Name):
                     ds = rd.root_defs(cn, arg.id)
                     ok = bool(ds) and all(d.value is mv or (d.node is not None and getattr(d.node, 'ast', None) is merged[0]) for d in ds)
+                    if not ok and isinstance(mv, ast.Name):
+                        # `cfg = DefaultConfig(config); self.config = cfg; Request(config=cfg)`
+                        mn_ = g.node_of_stmt(merged[0])[0]
+                        ds2 = rd.root_defs(mn_, mv.id)
+                        ok = bool(ds) and {id(d) for d in ds} == {id(d) for d in ds2} and all(
+                            isinstance(d.value, ast.Call) and (dotted(d.value.func) or '').split('.')[-1] in ('DefaultConfig', 'get_from') for d in ds)
                 elif src(arg) == 'self.config':
                     ok = g.edge_dominates is not None and g.must_pass(g.entry, cn, [g.node_of_stmt(merged[0])[0]])
             R.ob(rid, m, c, ok, text=f'`{short(c)}` receives the merged configuration stored in self.config', detail='' if ok else
